@@ -1,5 +1,7 @@
 HOOK_COMMITS = ["1ae4f10", "19e3492"]
 ENGINES = [
+    {"name": "racesim", "path": "/verif/harness/racesim", "serves_properties": ["C19"],
+     "kind_free_text": "free-running concurrent operation mixes over shared instances of both daemons in a -race binary; the driver attributes detector reports"},
     {"name": "robust", "path": "/verif/harness/robust", "serves_properties": ["C18"],
      "kind_free_text": "rapid generators and native go-fuzz targets over every parsing/typed surface of both daemons, built on the other engines, with panic capture, watchdog and follow-up request"},
     {"name": "gcsim", "path": "/verif/harness/gcsim", "serves_properties": ["C17"],
@@ -85,3 +87,7 @@ TEXTS["C18"] = {"engine": "robust", "design_ref": "DESIGN.md §4 C18",
     "level_note": "Trusted: the watchdog bound (30 s vs. milliseconds of legitimate work) and the engines' fakes. Absence of crashes is sampled, never established.",
     "technique": "fuzzing: rapid structured/byte generators plus coverage-guided native Go fuzz targets with panic capture, watchdog and follow-up-request oracle",
     "level_text": "Every surface is attacked with generated and mutated inputs; the oracle (returns, no panic, instance still answers, tables sane) is inside each target."}
+TEXTS["C19"] = {"engine": "racesim", "design_ref": "DESIGN.md §4 C19",
+    "level_note": "Trusted: the Go race detector; the attribution rule (innermost non-runtime frames). Interleavings are sampled (OS scheduler), not enumerated.",
+    "technique": "property-based concurrency testing (rapid-generated operation mixes on free-running goroutines) under the Go race detector",
+    "level_text": "Generated mixes of every public entry point run concurrently on shared instances; the detector needs both accesses to execute unsynchronised in one run, so pair coverage of overlapping entry points is the reported metric."}
